@@ -8,7 +8,15 @@ site in the audited function, not a weakening of the function the reason cites. 
 
 and this rule re-establishes, on every run, that the cited function still returns true only when each listed comparison holds:
 comparisons whose edge dominates every non-false result, the result expression itself, or the bounds of a `(a..=b).contains(&x)`
-result. Comparisons are written as sym.show prints them, either orientation."""
+result. Comparisons are written as sym.show prints them, either orientation.
+
+A second form is for two collections that are indexed with one another's positions:
+
+    "relies_on": [{"fn": "<path of the builder>", "parallel": {"pushed": "<local that is pushed to>", "over": "<local that is iterated>"}}]
+
+The rule re-establishes that the builder pushes to `pushed` exactly once on every path round the loop that iterates `over` (a path that
+leaves the function is an error exit and builds nothing), pushes nowhere else, and iterates `over` without an adaptor that drops, limits
+or repeats elements - so the two have the same length whenever the builder succeeds."""
 import json
 import os
 
@@ -31,6 +39,111 @@ def fn_truths(body):
             out.append(("Ge", x, rb[0]))
             out.append(("Le" if rb[2] else "Lt", x, rb[1]))
     return out
+
+
+DROPPING = ("::filter", "::filter_map", "::skip", "::skip_while", "::take", "::take_while", "::step_by", "::flat_map", "::flatten",
+            "::chain", "::cycle", "::dedup", "::rev_skip", "::map_while", "::scan", "::peekable", "::zip")
+
+
+def _named_local(b, name):
+    for l in range(1, len(b.locals)):
+        if b.local_name(l) == name:
+            return l
+    return None
+
+
+def _op_locals(op):
+    return [op["p"]["l"]] if op and op.get("k") in ("copy", "move") else []
+
+
+def _rv_locals(rv):
+    k = rv["k"]
+    if k in ("ref", "rawptr", "discr", "len"):
+        return [rv["p"]["l"]]
+    if k in ("use", "cast", "un"):
+        return _op_locals(rv.get("op") or rv.get("a"))
+    if k == "bin":
+        return _op_locals(rv["a"]) + _op_locals(rv["b"])
+    if k == "agg":
+        return [l for f in rv["fields"] for l in _op_locals(f)]
+    return []
+
+
+def _flows_from(b, src):
+    """locals that hold `src`, a reference to it, or an iterator made from it; with the names of the calls it went through"""
+    held = {src}
+    through = {}
+    changed = True
+    while changed:
+        changed = False
+        for bi in range(len(b.blocks)):
+            if not b.reachable(bi):
+                continue
+            for st in b.stmts(bi):
+                if st["k"] == "assign" and not st["p"]["p"] and st["p"]["l"] not in held and any(l in held for l in _rv_locals(st["rv"])):
+                    held.add(st["p"]["l"])
+                    changed = True
+            t = b.term(bi)
+            if t["k"] == "call" and t.get("dest") and not t["dest"]["p"] and t["dest"]["l"] not in held:
+                args = [l for a in t["args"] for l in _op_locals(a)]
+                nm = str(t["callee"].get("path") or "")
+                if args and args[0] in held and not nm.endswith(("Iterator::next", "::len", "::is_empty")):
+                    held.add(t["dest"]["l"])
+                    through[t["dest"]["l"]] = nm
+                    changed = True
+    return held, through
+
+
+def parallel_problem(fx, b, pushed, over):
+    """None when `b` pushes to the local `pushed` exactly once per element of the local `over`; otherwise what is wrong"""
+    import loops
+    import pathwalk as pw
+    lp_, lo_ = _named_local(b, pushed), _named_local(b, over)
+    if lp_ is None or lo_ is None:
+        return "no local named `%s` / `%s` (renamed: audit again)" % (pushed, over)
+    vec_refs, _ = _flows_from(b, lp_)
+    pushes = []
+    for bi in range(len(b.blocks)):
+        t = b.term(bi)
+        if b.reachable(bi) and t["k"] == "call" and t["args"] and _op_locals(t["args"][0]) and _op_locals(t["args"][0])[0] in vec_refs:
+            nm = str(t["callee"].get("path") or "")
+            if nm.endswith("::push"):
+                pushes.append(bi)
+            elif nm.endswith(("::insert", "::extend", "::append", "::pop", "::remove", "::truncate", "::clear", "::retain", "::swap_remove", "::drain", "::resize", "::dedup")):
+                return "`%s` is also changed through %s" % (pushed, nm)
+    if not pushes:
+        return "no push to `%s` found (the collection is built some other way: audit again)" % pushed
+    nl = loops.natural_loops(b)
+    inner = [lp for lp in nl if all(p in lp[1] for p in pushes)]
+    if not inner:
+        return "pushes to `%s` are not all inside one loop" % pushed
+    lp = min(inner, key=lambda l: len(l[1]))
+    h, body = lp[0], lp[1]
+    # the loop is driven by an iterator over `over`, unadapted
+    nexts = [bi for bi in body if b.term(bi)["k"] == "call" and str(b.term(bi)["callee"].get("path") or "").endswith("Iterator::next")]
+    if len(nexts) != 1:
+        return "the loop round the pushes is not driven by one iterator (%d calls of next)" % len(nexts)
+    held, through = _flows_from(b, lo_)
+    recv = _op_locals(b.term(nexts[0])["args"][0])
+    if not recv or recv[0] not in held:
+        return "the loop round the pushes does not iterate `%s`" % over
+    bad = sorted({nm for nm in through.values() if any(nm.endswith(d) for d in DROPPING)})
+    if bad:
+        return "an iterator over `%s` goes through %s" % (over, bad)
+    w = pw.Walk(b, None, [h], region=set(body), start=h)
+    if w.dropped:
+        return "the loop body could not be walked (%s)" % "; ".join(w.dropped)
+    rounds = 0
+    for conds, env, end, kind in w.paths:
+        if kind != "stop":
+            continue
+        rounds += 1
+        k = sum(1 for c in env.get(pw.Walk.CALLS, ()) if c[0] in pushes)
+        if k != 1:
+            return "a path round the loop pushes %d element(s) to `%s`" % (k, pushed)
+    if not rounds:
+        return "no path round the loop was found"
+    return None
 
 
 def _forms(op, a, b):
@@ -68,6 +181,16 @@ def rule_relies(run, fx, rule="C01-r", floors=True, floor_n=1):
                 run.fail(rule, "relies|%s|%s" % (e["key"], dep["fn"]), "the audit of %s relies on %s, which no longer exists" % (e["key"], dep["fn"]))
                 n += 1
                 continue
+            if dep.get("parallel"):
+                n += 1
+                pr = parallel_problem(fx, b, dep["parallel"]["pushed"], dep["parallel"]["over"])
+                if pr is None:
+                    run.ok(rule, "%s: one push to %s per element of %s (audit %s)" % (dep["fn"], dep["parallel"]["pushed"], dep["parallel"]["over"], e["key"]))
+                else:
+                    run.fail(rule, "relies|%s|%s|parallel" % (e["key"], dep["fn"]),
+                             "the audited site %s is safe only because %s builds `%s` with one element per element of `%s`; that no longer holds: %s"
+                             % (e["key"], dep["fn"], dep["parallel"]["pushed"], dep["parallel"]["over"], pr), "%s:%s" % (b.file, b.line))
+                continue
             have = set()
             for op, x, y in fn_truths(b):
                 if op in guards.CMP_FLIP:
@@ -80,6 +203,15 @@ def rule_relies(run, fx, rule="C01-r", floors=True, floor_n=1):
                     run.fail(rule, "relies|%s|%s|%s" % (e["key"], dep["fn"], want),
                              "the audited site %s is safe only because %s returns true only when %s; the function no longer establishes that "
                              "(it establishes: %s)" % (e["key"], dep["fn"], want, "; ".join(sorted(have))[:300] or "nothing"), "%s:%s" % (b.file, b.line))
+    if not floors:
+        # planted fixture: the parallel-collection clause is exercised on functions named parallel_* (no ledger applies there)
+        for b in fx.bodies:
+            if b.kind != "Closure" and b.path.split("::")[-1].startswith("parallel_"):
+                pr = parallel_problem(fx, b, "tables", "records")
+                if pr is not None:
+                    run.fail(rule, "parallel:" + b.path, "%s does not build `tables` with one element per element of `records`: %s" % (b.path, pr), "%s:%s" % (b.file, b.line))
+                else:
+                    run.ok(rule, "%s: one push per element" % b.path)
     if floors:
         run.floor(rule, "comparisons that audits rely on", n, floor_n)
     return n
